@@ -145,6 +145,14 @@ def _p12f(ctx):
                 if any(p_.endswith('MemoryManager.mem_manager') for p_ in g.locpaths(g.call_args(n)[0])) and g.nodes[n].inst == g.root_inst]
     okA = bool(attempts) and bool(tf) and not (x.reachable_entry(blocked=set(attempts)) & set(g.exits)) and \
         not (x.reachable_entry(blocked=set(tf) | {e_ for n in attempts for e_ in ()}) & set())
+    # the epoch the tokens are compared with is read under the manager lock (after any bump this call could make)
+    for t_ in tf:
+        at_ = g.ev_local(g.nodes[t_].call['inlined'], 2)
+        lds = [l for l in x.loads_in(at_) if l.on('MemoryManager.epoch')]
+        okE = bool(lds) and all(x.dom(set(attempts), l.nid) for l in lds) and not [s_ for s_ in g.walk(at_) if s_[0] in ('bin', 'un')]
+        ctx.add('P12f', 'T-FLOW', fr, okE, 'try_freeing compares the tokens with the global epoch read under the manager lock' if okE else
+                'the epoch handed to try_freeing is not the global epoch read under the manager lock (read before the lock / before a bump, or modified): every token trivially "has announced" a stale epoch and the batch is freed without a grace period (use-after-free of bookkeeping memory)',
+                sub='epoch-under-lock')
     # the completion attempt must come before a new cycle may be started in the same call
     sf = x.inlined(r'memory::MemoryManager::start_free$')
     okB = all(x.dom(set(attempts), s_) for s_ in sf) if sf else True
